@@ -158,7 +158,8 @@ func genC04(g *h.G) {
 			v := reflect.New(tt.T).Elem()
 			gc.Gen(tt.D, v, "p")
 			txt := tlbx.Print(v)
-			g.Emit("tlb.spec", st[0], "(:N|:"+st[1]+")", txt)
+			// the spec side gets the struct fields BY NAME
+			g.Emit("tlb.spec", st[0], "(:N|:"+st[1]+")", tlbx.PrintNamed(tlbU, tt.D, v))
 			g.NonTrivial(st[0] + "/" + txt)
 			g.Count("spec_struct:" + st[0])
 			if i%4 == 0 { // the model of the implementation on the same value (exact correspondence)
@@ -193,7 +194,7 @@ func genC04(g *h.G) {
 		if g.Rng.Intn(2) == 0 {
 			v := reflect.New(siT.T).Elem()
 			gc.Gen(siT.D, v, "p")
-			init = tlbx.Print(v)
+			init = tlbx.PrintNamed(tlbU, siT.D, v)
 			g.Count("extmsg_with_init")
 		} else {
 			g.Count("extmsg_without_init")
